@@ -37,10 +37,11 @@ class Scenario:
     extra:   hard realisability constraints (SymBool); prefer: soft ones that keep the image small
     """
 
-    def __init__(self, vars, build, expect, extra=(), prefer=()):
+    def __init__(self, vars, build, expect, extra=(), prefer=(), need=()):
         self.vars, self.build, self.expect = vars, build, expect
-        self.extra = list(extra)
-        self.prefer = list(prefer)
+        self.extra = list(extra)    # physical realisability (no image can violate these)
+        self.need = list(need)      # what the replay machinery needs in order to build the image
+        self.prefer = list(prefer)  # soft: keep the image small
 
 
 class TaskResult(dict):
@@ -102,22 +103,29 @@ class Ctx:
 
     # ---- replay helpers ---------------------------------------------------------------------------------
     def _solve_realisable(self, cons):
-        """model of pc /\\ cons /\\ hard realisability (/\\ soft preferences when possible), or None"""
+        """model of pc and cons and realisability constraints (and soft preferences when possible), or None.
+        Sets self.unreplayable when a physically realisable model exists but the replay machinery cannot build it."""
         sc = self.scenario
+        self.unreplayable = False
         extra = list(sc.extra) if sc else []
         try:
             extra += _overlap_bools(self.E.apps)
         except Exception as ex:  # noqa: BLE001
             self.res["notes"].append(f"overlap constraints skipped: {ex}")
         conds = list(cons) + extra
+        need = list(sc.need) if sc else []
         if sc and sc.prefer:
             try:
-                m = self.E.decide_case(True, conds + list(sc.prefer))
+                m = self.E.decide_case(True, conds + need + list(sc.prefer))
             except Inconclusive:
                 m = None
             if m is not None:
                 return m
-        return self.E.decide_case(True, conds)
+        m = self.E.decide_case(True, conds + need)
+        if m is None and need:
+            if self.E.decide_case(True, conds) is not None:
+                self.unreplayable = True
+        return m
 
     def _describe(self, model, why):
         sc = self.scenario
@@ -169,8 +177,11 @@ class Ctx:
             except Inconclusive:
                 mr = None
             if mr is None:
+                if getattr(self, "unreplayable", False):
+                    self.res["inconclusive"].append(f"{what}: a counterexample exists but cannot be built as a replay image")
+                    continue
                 self.res["unrealisable"] += 1
-                self.res["notes"].append(f"{what}: counterexample exists only for overlapping/unreplayable layouts")
+                self.res["notes"].append(f"{what}: counterexample exists only for physically impossible (overlapping) layouts")
                 continue
             self._triage(mr, what)
             return False
@@ -255,7 +266,7 @@ class Ctx:
         if not force:
             if self.res["witnesses"] >= self.max_witnesses:
                 return
-            if self.path_no != 1 and (self.path_no + self.seed) % self.witness_stride != 0:
+            if (self.path_no != 1 or self.cfg.get("_prefix")) and (self.path_no + self.seed) % self.witness_stride != 0:
                 return
         try:
             m = self._solve_realisable([])
@@ -318,7 +329,8 @@ class Ctx:
             if cov:
                 cov.start()
             try:
-                self.E.explore(lambda E: body(E, self), on_path=on_path)
+                self.E.split_depth = int(self.cfg.get("_split", 0))
+                self.E.explore(lambda E: body(E, self), on_path=on_path, forced_prefix=self.cfg.get("_prefix"))
             finally:
                 if cov:
                     cov.stop()
@@ -333,6 +345,7 @@ class Ctx:
                         solver_s=round(st["int_s"] + st["bv_s"], 2), int_checks=st["int_checks"],
                         bv_checks=st["bv_checks"], wall_s=round(time.time() - self.t0, 2), int_s=round(st["int_s"], 2),
                         bv_s=round(st["bv_s"], 2), int_decides=st.get("int_decides", 0))
+        self.res["pending"] = list(getattr(self.E, "pending", []))
         if cov:
             self.res["funcs"] = sorted(cov.funcs)
             self.res["lines"] = sorted(cov.lines)
@@ -424,7 +437,7 @@ def files_desc(model, apps, seed, names=("img",), size=1 << 70, labels=None, siz
 
 
 def read_scenario(ctx, E, vars_, *, entry, params, call, total, g0, spec_at, unit, rng, names=("img",), opaque=(),
-                  prefer=(), extra=(), j=None, extra_units=(), post_files=None, sizes=None):
+                  prefer=(), extra=(), need=(), j=None, extra_units=(), post_files=None, sizes=None, opaque_sizes=None):
     """Scenario for a read request.
     params/call/total/g0: callables(model) -> JSON value / int;
     spec_at(model, g:int, mems, opaques) -> int: the oracle evaluated concretely on the image."""
@@ -436,7 +449,8 @@ def read_scenario(ctx, E, vars_, *, entry, params, call, total, g0, spec_at, uni
         fd = files_desc(model, E.apps, seed, names, sizes=sizes)
         d = dict(entry=entry, params=params(model), files=fd, call=call(model))
         if opaque:
-            d["opaque"] = {n: dict(size=1 << 70, seed=(seed & 0xFFFF) + 977 + 13 * i) for i, n in enumerate(opaque)}
+            d["opaque"] = {n: dict(size=opaque_sizes[n](model) if opaque_sizes and n in opaque_sizes else 1 << 70,
+                                   seed=(seed & 0xFFFF) + 977 + 13 * i) for i, n in enumerate(opaque)}
         if post_files:
             post_files(model, d)
         return d
@@ -460,7 +474,7 @@ def read_scenario(ctx, E, vars_, *, entry, params, call, total, g0, spec_at, uni
             out.append([jj, int(spec_at(model, base + jj, mems, ops))])
         return dict(len=tot, bytes=out)
 
-    return Scenario(vars_, build, expect, extra=list(extra), prefer=list(prefer))
+    return Scenario(vars_, build, expect, extra=list(extra), prefer=list(prefer), need=list(need))
 
 
 def mi(model, x):
